@@ -19,7 +19,8 @@ from mc.battery import Exc, call, p64, u64
 from mc.refmodel import Model, Z64
 
 MOD = 'checks.c16_demo'
-KINDS = ['new', 'mod', 'mod2', 'stale', 'undo', 'ab2', 'pack', 'push', 'pop']
+KINDS = ['new', 'mod', 'mod2', 'stale', 'undo', 'ab2', 'back', 'pack', 'push',
+         'pop']
 BASE_HISTS = {
     0: [[]],
     1: [[('new', 1)], [('new2', 1, 2)]],
@@ -417,7 +418,9 @@ def run(rep, tier, seed, workers):
                'base'] = 2
     rep.cov['states'] = max(states, 1) + rep.cov.get('states', 0) - before
     rep.assumptions = [
-        'the clock is monotone across both layers',
+        'the clock may step back (also right after the base was written); '
+        'a base whose ids are ahead of the clock by more than that is the '
+        'same situation',
         'after a pack the list model is not continued']
 
 
